@@ -519,9 +519,12 @@ size_t varintAdaptiveDecode(const uint8_t *src, uint64_t *values,
         varintBitmap *vb = varintBitmapDecode(data, 1024 * 1024);
         if (vb) {
             /* Extract values from bitmap */
+            /* varintBitmapToArray writes every member, so size the scratch
+             * array by cardinality, not by the caller's capacity */
             size_t allocSize;
             uint16_t *shortValues = NULL;
-            if (!size_mul_overflow(maxCount, sizeof(uint16_t), &allocSize)) {
+            if (!size_mul_overflow((size_t)varintBitmapCardinality(vb) + 1,
+                                   sizeof(uint16_t), &allocSize)) {
                 shortValues = malloc(allocSize);
             }
 
